@@ -47,6 +47,9 @@ func (c14) Run(c *mon.Ctx, i int) {
 	if s.Wrapper == "flate" {
 		s.Win4K = r.Chance(1, 3)
 	}
+	if s.Wrapper == "zlib" && r.Chance(1, 3) {
+		s.Dict = []byte("a preset dictionary: header plus four more bytes to write")
+	}
 	W := 32768
 	if s.Win4K {
 		W = 4096
@@ -83,6 +86,23 @@ func (c14) Run(c *mon.Ctx, i int) {
 		if r.Bool() {
 			ops = append(ops, gen.Op{Kind: "flush"})
 		}
+	}
+	if !s.Accelerated() && len(d.B) > 30000 {
+		// levels delegated to compress/flate: its chained match finder is very slow
+		// on some of the data families, and every fault index repeats the sequence
+		d = gen.Data{Desc: d.Desc + "[:30000]", B: d.B[:30000]}
+		var o2 []gen.Op
+		left := 30000
+		for _, o := range ops {
+			if o.Kind == "write" {
+				if o.N > left {
+					o.N = left
+				}
+				left -= o.N
+			}
+			o2 = append(o2, o)
+		}
+		ops = o2
 	}
 	// three further random ops, then Close
 	tail := []gen.Op{}
@@ -196,7 +216,7 @@ func (c14) Run(c *mon.Ctx, i int) {
 			c.Violate("fault-free-stream|container-too-short|"+s.Wrapper, "container shorter than header plus trailer", desc)
 			return
 		}
-		if sig, what, _ := DecodeChecks(c.API, raw, all[:dataLen], nil); sig != "" {
+		if sig, what, res := DecodeChecks(c.API, raw, all[:dataLen], s.Dict); sig != "" && !(sig == "ref-wrong-data" && isDelegatedDictReplay(res.Out, all[:dataLen], s.Dict)) {
 			c.Violate("fault-free-stream|"+sig+"|"+s.Wrapper, fmt.Sprintf("every call returned nil but: %s", what), desc)
 			return
 		}
@@ -223,7 +243,8 @@ func (c14) Run(c *mon.Ctx, i int) {
 	for _, k := range ks {
 		E := errors.New(fmt.Sprintf("c14: destination failed at call %d", k))
 		partial := r.Bool()
-		sink := &Sink{FailAt: k, FailErr: E, Partial: partial}
+		fullCnt := !partial && r.Bool()
+		sink := &Sink{FailAt: k, FailErr: E, Partial: partial, FullCount: fullCnt}
 		errs, w, pv, st, ge := run(sink, false)
 		if w == nil {
 			return
@@ -232,7 +253,7 @@ func (c14) Run(c *mon.Ctx, i int) {
 			defer g.DropGuards()
 		}
 		c.Eval(1)
-		d2 := map[string]interface{}{"fail_at_call": k, "destination_calls_fault_free": N, "partial_write": partial}
+		d2 := map[string]interface{}{"fail_at_call": k, "destination_calls_fault_free": N, "partial_write": partial, "full_count_with_error": fullCnt}
 		for a, b := range desc {
 			d2[a] = b
 		}
@@ -307,7 +328,7 @@ func (c14) Run(c *mon.Ctx, i int) {
 				c.Violate("unusable-after-reset|"+where, fmt.Sprintf("after failure at call %d and Reset: Write err=%v Close err=%v", k, e1, e2), d2)
 				return
 			}
-			if sig, what, _ := DecodeChecks(c.API, raw, extra, nil); sig != "" {
+			if sig, what, res := DecodeChecks(c.API, raw, extra, s.Dict); sig != "" && !(sig == "ref-wrong-data" && isDelegatedDictReplay(res.Out, extra, s.Dict)) {
 				c.Violate("invalid-after-reset|"+sig+"|"+where, fmt.Sprintf("after failure at call %d and Reset: %s", k, what), d2)
 				return
 			}
